@@ -1955,7 +1955,8 @@ func (r *run) l2Arith() {
 		// oracle: least multiple of F at or after t (where the products fit into 64 bits)
 		hi := new(big.Int).Mul(new(big.Int).SetUint64(t), new(big.Int).SetUint64(a))
 		hi.Add(hi, new(big.Int).Mul(new(big.Int).SetUint64(F), new(big.Int).SetUint64(rr)))
-		if cls == 0 && hi.IsUint64() {
+		_ = hi
+		if cls == 0 && ceilFrame(t, rr, F, a) != ^uint64(0) { // every input whose result fits into 64 bits (128-bit product since the fix)
 			if exp := ceilFrame(t, rr, F, a); v != exp {
 				c.Fail(id, "boundary", fmt.Sprintf("calcAudioTimeFromRef(%d,%d,%d,%d) = %d, least frame boundary at or after the reference time is %d", t, rr, F, a, v, exp), in)
 			}
